@@ -720,6 +720,9 @@ def oracle_c12(cid, impl, m):
         return ("c12-panic", "Parse / ParseError API panicked")
     if impl.get("endpoints_agree") != "1":
         return ("c12-endpoints", "REST and gRPC syntax endpoints returned different errors")
+    if impl.get("stale") == "1":
+        return ("c12-stale-errors", "the errors of the previous document render differently after this document was parsed "
+                                    "(positions / message / source rows of a diagnosis must belong to its own input)")
     if impl["nerr"] == "0" and "ns" not in impl:
         return ("c12-neither", "neither errors nor namespaces")
     for e in impl.get("errs", "").split(";"):
